@@ -339,6 +339,121 @@ where
     fam.finish();
 }
 
+/// facade vs core for integers under custom formats: (name, radix, sign required, core write into a
+/// buffer of exactly `buffer_size_const` bytes, facade to_string_with_options, that size)
+struct IntFac<T> {
+    name: &'static str,
+    radix: u32,
+    plus: bool,
+    write: fn(T, &mut [u8]) -> usize,
+    to_string: fn(T) -> String,
+    size: usize,
+}
+
+macro_rules! int_fac {
+    ($t:ty, $name:expr, $radix:expr, $plus:expr, $f:expr) => {{
+        const FF: u128 = $f;
+        fn w<T: Int>(v: T, b: &mut [u8]) -> usize {
+            lexical_core::write_with_options::<T, FF>(v, b, &harness::intglue::WOPTS).len()
+        }
+        fn ts<T: Int + lexical::ToLexicalWithOptions<Options = WriteIntegerOptions>>(v: T) -> String {
+            lexical::to_string_with_options::<T, FF>(v, &harness::intglue::WOPTS)
+        }
+        IntFac::<$t> { name: $name, radix: $radix, plus: $plus, write: w::<$t>, to_string: ts::<$t>, size: harness::intglue::WOPTS.buffer_size_const::<$t, FF>() }
+    }};
+}
+
+fn int_facs<T: Int + lexical::ToLexicalWithOptions<Options = WriteIntegerOptions>>() -> Vec<IntFac<T>> {
+    #[allow(unused_mut)]
+    let mut v = vec![int_fac!(T, "STANDARD", 10, false, lexical_core::format::STANDARD)];
+    #[cfg(feature = "power-of-two")]
+    {
+        v.push(int_fac!(T, "radix2", 2, false, lexical_core::NumberFormatBuilder::from_radix(2)));
+        v.push(int_fac!(T, "radix16", 16, false, lexical_core::NumberFormatBuilder::from_radix(16)));
+        v.push(int_fac!(T, "radix32", 32, false, lexical_core::NumberFormatBuilder::from_radix(32)));
+    }
+    #[cfg(feature = "radix")]
+    {
+        v.push(int_fac!(T, "radix3", 3, false, lexical_core::NumberFormatBuilder::from_radix(3)));
+        v.push(int_fac!(T, "radix36", 36, false, lexical_core::NumberFormatBuilder::from_radix(36)));
+    }
+    #[cfg(feature = "format")]
+    {
+        use lexical_core::NumberFormatBuilder as B;
+        v.push(int_fac!(T, "required_mantissa_sign", 10, true, B::new().required_mantissa_sign(true).build_strict()));
+    }
+    #[cfg(all(feature = "format", feature = "power-of-two"))]
+    {
+        use lexical_core::NumberFormatBuilder as B;
+        v.push(int_fac!(T, "radix2_required_mantissa_sign", 2, true, B::new().radix(2).required_mantissa_sign(true).build_strict()));
+    }
+    v
+}
+
+/// INTOPT: to_string_with_options vs write_with_options (buffer of exactly the documented size)
+/// vs the reference numeral, for the boundary values of every type in every facade format.
+fn run_ints_opts<T: Int>(rep: &Report, _cli: &Cli)
+where
+    T: lexical::ToLexicalWithOptions<Options = WriteIntegerOptions>,
+{
+    for fc in int_facs::<T>() {
+        let mut fam = Fam::new(rep, &format!("C17:{}:INTOPT:{}", T::NAME, fc.name));
+        let mut vals: Vec<IVal> = Vec::new();
+        for m in gen::int_magnitudes(T::TY.max_mag(false), fc.radix, 2) {
+            vals.push(IVal { neg: false, mag: m });
+        }
+        if T::TY.signed {
+            for m in gen::int_magnitudes(T::TY.max_mag(true), fc.radix, 2) {
+                if m != 0 {
+                    vals.push(IVal { neg: true, mag: m });
+                }
+            }
+        }
+        let mut buf = vec![0u8; fc.size];
+        for iv in vals {
+            let v = T::from_ival(iv).unwrap();
+            fam.states += 1;
+            fam.cases += 1;
+            fam.calls += 2;
+            fam.nontrivial += 1;
+            let mut expect: Vec<u8> = Vec::new();
+            if iv.neg {
+                expect.push(b'-');
+            } else if fc.plus {
+                expect.push(b'+');
+            }
+            expect.extend_from_slice(&vkit::big::Big::from_u128(iv.mag).to_digits(fc.radix));
+            let key = format!("{}|intopt|{}|{}", T::NAME, fc.name, iv.show());
+            let (w, ts) = (fc.write, fc.to_string);
+            let a = guarded(|| {
+                let n = w(v, &mut buf[..]);
+                buf[..n].to_vec()
+            });
+            let b = guarded(|| ts(v).into_bytes());
+            match (&a, &b) {
+                (Ok(x), Ok(y)) if x == y && *x == expect => {}
+                _ => rep.violation(
+                    key,
+                    format!(
+                        "C17 [{} {}] {}: write_with_options into the documented {} bytes = {:?}, to_string_with_options = {:?}, reference {:?}",
+                        T::NAME,
+                        fc.name,
+                        iv.show(),
+                        fc.size,
+                        a.as_ref().map(|x| show_bytes(x)),
+                        b.as_ref().map(|x| show_bytes(x)),
+                        show_bytes(&expect)
+                    ),
+                ),
+            }
+        }
+        if fam.want_sample() {
+            rep.sample(format!("{} boundary values, facade vs core vs reference numeral (buffer {} bytes)", fam.name, fc.size));
+        }
+        fam.finish();
+    }
+}
+
 fn main() {
     let cli = parse_cli();
     silence_panics();
@@ -350,5 +465,6 @@ fn main() {
     run_floats::<f64>(&rep, &cli);
     run_floats::<f32>(&rep, &cli);
     harness::for_each_int_type!(run_ints, &rep, &cli);
+    harness::for_each_int_type!(run_ints_opts, &rep, &cli);
     finish(&rep, &cli);
 }
